@@ -29,6 +29,9 @@ type Opts struct {
 	AltNumbers bool
 	// LenientFixed: do not check the size of fixed leaves (used by known-finding signatures only).
 	LenientFixed bool
+	// Strict: the tree must be exactly what an encoder may emit for the type: every member of a record object is a field
+	// of the schema (once), none is null, an enum leaf is a declared symbol (emit direction of C03).
+	Strict bool
 }
 
 func bytesToText(b []byte, m BytesMode) string {
@@ -187,6 +190,24 @@ func FromTree(s *schema.Schema, t schema.Type, tr *Tree, o Opts) (*aval.V, error
 			return nil, fmt.Errorf("expected record %s, got %s", n.Name, tr.Kind)
 		}
 		r := aval.Record()
+		if o.Strict {
+			declared := map[string]bool{}
+			for _, f := range s.AllFields(n) {
+				declared[f.Name] = true
+			}
+			seen := map[string]bool{}
+			for _, kv := range tr.Obj {
+				switch {
+				case !declared[kv.K]:
+					return nil, fmt.Errorf("member %q is not a field of %s", kv.K, n.Name)
+				case seen[kv.K]:
+					return nil, fmt.Errorf("member %q of %s occurs twice", kv.K, n.Name)
+				case kv.V != nil && kv.V.Kind == "null":
+					return nil, fmt.Errorf("member %q of %s is null", kv.K, n.Name)
+				}
+				seen[kv.K] = true
+			}
+		}
 		for _, f := range s.AllFields(n) {
 			x := tr.Get(f.Name)
 			if x == nil || x.Kind == "null" {
@@ -207,6 +228,9 @@ func FromTree(s *schema.Schema, t schema.Type, tr *Tree, o Opts) (*aval.V, error
 			if sym == tr.Str {
 				return aval.Enum(sym), nil
 			}
+		}
+		if o.Strict {
+			return nil, fmt.Errorf("%q is not a symbol of enum %s", tr.Str, n.Name)
 		}
 		return aval.Enum(""), nil
 	case "fixed":
